@@ -1,6 +1,63 @@
-(* C12 — concurrent processes initialise jobs and write documents without corruption. *)
+(* C12 — concurrent processes initialise jobs and write documents without corruption.
+   This file only states theorems; proofs live in SV.Proc / SV.C12Proofs.
+
+   Model: actors are the step programs of SV.Crash (Project(), open_job(sp).init(), job.doc[k] = v, job.doc(),
+   len(project)) under the interleaving semantics of SV.Proc: a schedule is a list of actor indices, every
+   position lets that actor perform ONE file-system call; after the schedule the unfinished actors run to the
+   end one after the other.  All theorems hold for EVERY schedule (of any length) and any number of actors.
+
+   Status: interleave_disjoint (generic commutation) FULL; docs_disjoint_jobs FULL (also covers initialising
+   DIFFERENT jobs); doc_read_after_write FULL; init_race_direct_write REFUTED (the property rests on the
+   backend's default; known finding 1 is its replay on the real code with thread support switched off);
+   init_race_safe for the SAME job — see below (C12_init_race_safe_same_job).
+   What the model cannot exhibit: preemption inside a system call, NFS semantics, page-cache visibility
+   between hosts; os.replace is assumed atomic. *)
 From SV Require Import Base Json MD5 Canon FS Proc Crash CorrC11 CorrC12 C12Proofs.
 
 Theorem C12_sequential_is_empty_schedule : forall A f (ps : list (prog A)), interleave [] f ps = sequential f ps.
 Proof. exact interleave_nil. Qed.
 Print Assumptions C12_sequential_is_empty_schedule.
+
+(* disjoint-footprint commutation: programs confined to pairwise incomparable sub-trees (they may stat
+   common ancestors) obtain, under every schedule, the results of their solo runs; below each sub-tree the
+   final state is what the solo run leaves there and nothing else changes *)
+Theorem C12_interleave_disjoint : forall A (ds : list path) (ps : list (prog A)) f0 sched,
+  length ds = length ps ->
+  (forall i d p, nth_error ds i = Some d -> nth_error ps i = Some p -> prog_confined f0 d p) ->
+  (forall i j di dj, i <> j -> nth_error ds i = Some di -> nth_error ds j = Some dj -> incomparable di dj) ->
+  snd (interleave sched f0 ps) = snd (sequential f0 ps) /\
+  fs_eq (fst (interleave sched f0 ps)) (fst (sequential f0 ps)).
+Proof. exact interleave_disjoint_seq. Qed.
+Print Assumptions C12_interleave_disjoint.
+
+(* actors that each work on their OWN job (Project(), init, document writes and reads of that job, in any
+   number and order) commute: every schedule gives every actor the values of the sequential execution and
+   ends in the same tree *)
+Theorem C12_docs_disjoint_jobs : forall frepr atomic f0 w1 w2 wr (specs : list aspec) sched,
+  let ws := w1 :: w2 :: wr in
+  get f0 ws = Some Dir ->
+  NoDup (map s_id specs) ->
+  (forall s, In s specs -> Forall (own_act frepr (s_id s)) (s_acts s)) ->
+  let ps := map (spec_prog frepr atomic ws) specs in
+  snd (interleave sched f0 ps) = snd (sequential f0 ps) /\
+  fs_eq (fst (interleave sched f0 ps)) (fst (sequential f0 ps)).
+Proof. exact docs_disjoint_jobs_lemma. Qed.
+Print Assumptions C12_docs_disjoint_jobs.
+
+(* a read performed in any state that holds the file installed by a completed document write returns
+   exactly the written value *)
+Theorem C12_doc_read_after_write : forall frepr tag (f f1 : fs) (file : path) (v : json),
+  run (doc_store frepr tag file v (fun r => match r with inl _ => Ret tt | inr e => Raise e end)) f = (f1, inl tt) ->
+  forall g, (forall q, q = file -> get g q = get f1 q) ->
+  snd (run (doc_load file (fun r => match r with inl d => Ret d | inr e => Raise e end)) g) = inl v.
+Proof. exact doc_read_after_write_lemma. Qed.
+Print Assumptions C12_doc_read_after_write.
+
+(* with in-place writes (JSON thread support off) two initialisers of one job can collide: the second
+   finds the file present but empty, skips its own save and fails; with the temp-file protocol the same
+   schedule succeeds *)
+Theorem C12_init_race_direct_write_refuted :
+  snd (interleave wit_sched wit_f0 (wit_progs false)) = [inl [OUnit; OUnit]; inr (PExn EJobsCorrupted)]
+  /\ snd (interleave wit_sched wit_f0 (wit_progs true)) = [inl [OUnit; OUnit]; inl [OUnit; OUnit]].
+Proof. exact init_race_direct_write_witness. Qed.
+Print Assumptions C12_init_race_direct_write_refuted.
